@@ -1,5 +1,5 @@
 From JV Require Import Model.Base Model.GoTime Gen.TypeGo Model.Schema Model.Value
-  Model.SoftRes Model.Wrapper Model.Resource Model.C14 Model.C17.
+  Model.SoftRes Model.Wrapper Model.WrapCopy Model.Resource Model.C14 Model.C17.
 
 Definition obs_class {A} (r : res A) : obs :=
   match r with Ok _ => OC "ok" [] | Err => OC "err" [] | Panic => OC "panic" [] end.
@@ -25,7 +25,17 @@ Definition run_c20 (d : structdesc) (names : list str) : obs :=
                                      | Some (f, _) => obs_class (wrapper_set w0 n (go_zero (sf_type f)))
                                      | None => obs_class (wrapper_set w0 n VNil)
                                      end) names);
-                          obs_class (wrapper_set w0 "id" (VStr "x"))]
+                          obs_class (wrapper_set w0 "id" (VStr "x"));
+                          obs_res (fun c => obs_struct (RWrap c)) (wrapper_copy w0)]
       | Err => OC "err" []
       | Panic => OC "panic" []
       end].
+
+(** a Set history on a wrapped zero value, then Copy: what the copy is and reads *)
+Definition run_wcopy (d : structdesc) (ops : list (str * value)) (fields : list str) : obs :=
+  match bind (new_wrapped d) (fun r => apply_sets r ops) with
+  | Ok (RWrap w) =>
+      OC "ok" [obs_res (fun c => OL [obs_struct (RWrap c); dump (RWrap c) fields]) (wrapper_copy w)]
+  | Ok _ => OC "soft" []
+  | _ => OC "panic" []
+  end.
